@@ -1,6 +1,7 @@
 package dnsserver
 
 import (
+	"cmp"
 	"context"
 	"fmt"
 	"net"
@@ -23,6 +24,10 @@ type ConfigDNSCrypt struct {
 
 	// DNSCryptProviderName is a DNSCrypt provider name (see DNSCrypt spec).
 	DNSCryptProviderName string
+
+	// MaxUDPRespSize is the maximum size of DNS response over UDP protocol.  If
+	// not set it defaults to [dns.MaxMsgSize].
+	MaxUDPRespSize uint16
 }
 
 // ServerDNSCrypt is a DNSCrypt server implementation.
@@ -42,6 +47,8 @@ func NewServerDNSCrypt(conf ConfigDNSCrypt) (s *ServerDNSCrypt) {
 	if conf.ListenConfig == nil {
 		conf.ListenConfig = netext.DefaultListenConfig(nil)
 	}
+
+	conf.MaxUDPRespSize = cmp.Or(conf.MaxUDPRespSize, dns.MaxMsgSize)
 
 	return &ServerDNSCrypt{
 		ServerBase: newServerBase(ProtoDNSCrypt, conf.ConfigBase),
@@ -231,7 +238,14 @@ func (h *dnsCryptHandler) ServeDNS(rw dnscrypt.ResponseWriter, r *dns.Msg) (err 
 	}
 
 	network := NetworkFromAddr(rw.LocalAddr())
-	normalize(network, ProtoDNSCrypt, r, msg, dns.MaxMsgSize)
+	normalize(network, ProtoDNSCrypt, r, msg, h.srv.conf.MaxUDPRespSize)
+
+	// The dnscrypt module truncates the response once more, to the size
+	// advertised in r, and sends it uncompressed if it fits that size this way.
+	// Make sure that what it sends doesn't exceed the configured maximum.
+	if opt := r.IsEdns0(); opt != nil && network == NetworkUDP {
+		opt.SetUDPSize(min(opt.UDPSize(), h.srv.conf.MaxUDPRespSize))
+	}
 
 	return rw.WriteMsg(msg)
 }
